@@ -63,4 +63,9 @@ ASSUMPTIONS = [
     'the pass drivers (ordering by ref_sort_heap_dbl, the 8-try back-off loops, age counters) are not modelled; '
     'their effect is observed through the hooks',
     'serial runs only in the unit_* streams',
+    'FINDING (not a violation of the band property): on planar (twod) grids ref_collapse_pass resets the work-list '
+    'entries of the neighbours of a finished collapse through ref_grid_tet (empty there; the pass picks tri only for '
+    'ref_grid_surf), so a vertex chosen at the start of the pass can be processed after it lost its short edge and an '
+    'edge that is not short is collapsed; all guards still apply. The run-level selection check is therefore strict in '
+    '3-D (every removal attempt, observed white-box) and reported as "stale-2d" on planar grids',
 ]
